@@ -180,6 +180,15 @@ func cmdCheck(args []string) int {
 	}
 	known := loadKnown(verifDir())
 	rc := 0
+	var extras map[string]interface{}
+	if tier == "thorough" {
+		extras = thoroughExtras(c)
+		if m, ok := extras["vta_edges_missing_from_module_graph"].([]string); ok && len(m) > 0 {
+			fmt.Printf("BROKEN: the module-local call graph misses %d edges that the whole-program VTA graph has (first: %s): reachability facts cannot be trusted\n", len(m), m[0])
+			return 2
+		}
+	}
+	c.extras = extras
 	for _, id := range ids {
 		p := properties[id]
 		if p == nil {
@@ -303,6 +312,17 @@ func checkProperty(c *Ctx, p *Property, tier string, seed int, known []KnownFind
 		ruleCounts[r] = map[string]int{"obligations": perRule[r][0], "discharged": perRule[r][1], "frozen_minimum": rules[r].Min}
 	}
 	cg := c.CG()
+	var selftest map[string]interface{}
+	selfBroken := false
+	if tier == "thorough" && nViol == 0 && os.Getenv("JENLINT_NO_SELFTEST") == "" {
+		selftest, selfBroken = runSelftest(p.ID, c.Repo, true)
+	}
+	if infos == nil {
+		infos = []string{}
+	}
+	if knownHit == nil {
+		knownHit = []string{}
+	}
 	ev := Evidence{PropertyID: p.ID, Tier: tier, Seed: seed, Level: "other",
 		Coverage: map[string]interface{}{
 			"explanation":         p.Explanation,
@@ -323,6 +343,8 @@ func checkProperty(c *Ctx, p *Property, tier string, seed int, known []KnownFind
 			"checker_cmd":         "bin/jenlint check " + p.ID + " --tier " + tier,
 			"trusted_base":        p.Assumptions,
 			"exhaustive":          false,
+			"thorough_extras":     c.extras,
+			"selftest":            selftest,
 		},
 		Assumptions: p.Assumptions,
 		WallS:       time.Since(t0).Seconds() + time.Since(startTime).Seconds()*0,
@@ -333,6 +355,9 @@ func checkProperty(c *Ctx, p *Property, tier string, seed int, known []KnownFind
 	fmt.Printf("%s tier=%s obligations=%d discharged=%d known=%d violations=%d rules=%s\n", p.ID, tier, nObl, nDis, nKnown, nViol, strings.Join(ruleNames, ","))
 	if nViol > 0 {
 		return 1
+	}
+	if selfBroken {
+		return 2
 	}
 	return 0
 }
